@@ -9,6 +9,7 @@ ROOT = os.path.dirname(os.path.dirname(os.path.abspath(__file__)))
 REPO = os.environ.get("VERIF_REPO", "/repo")
 sys.path.insert(0, os.path.join(ROOT, "lib"))
 from props import PROPS
+SEED = ""
 
 def sh(cmd, **kw):
     return subprocess.run(cmd, shell=True, capture_output=True, text=True, **kw)
@@ -34,7 +35,7 @@ def run_one(mid, patch, props, extra_props=()):
             res["checks"][pr] = "no-check"
             continue
         t = time.time()
-        r = sh("cd %s && ./check %s --tier quick" % (ROOT, pr))
+        r = sh("cd %s && %s./check %s --tier quick" % (ROOT, ("VERIF_SEED=%s " % SEED) if SEED else "", pr))
         lines = [l for l in r.stdout.splitlines() if l.startswith("VIOLATION")]
         res["checks"][pr] = {"rc": r.returncode, "violations": lines[:4], "s": round(time.time() - t, 1)}
     clean()
@@ -47,7 +48,10 @@ def main():
     ap.add_argument("--seeded", action="store_true")
     ap.add_argument("--extra", default="")
     ap.add_argument("--out", default="/tmp/mutant_results.json")
+    ap.add_argument("--seed", default="")
     a = ap.parse_args()
+    global SEED
+    SEED = a.seed
     items = []
     if a.seeded:
         for d in sorted(glob.glob(os.path.join(ROOT, "seeded", "*"))):
